@@ -507,7 +507,7 @@ pub fn harnesses() -> Vec<HarnessDef> {
   let mut add = |id: &'static str, props: Vec<&'static str>, about: &'static str, bounds: fn(bool) -> String, f: Box<dyn Fn(bool) + Send + Sync>, bq: u64, bt: u64, sampled: bool| {
     v.push(HarnessDef { id, props, about, bounds, f, budget_quick: bq, budget_thorough: bt, thorough_only: false, sampled });
   };
-  add("c08_built_earlier", vec!["C08", "C07"], "timer, interval, delay, delay_subscription, delay_threads built first and subscribed after a real 25 ms pause: the requested timer is the whole configured duration", |_| "5 operators, duration 10 s".to_string(), Box::new(|_| c08_built_earlier()), 10_000, 10_000, false);
+  add("c08_built_earlier", vec!["C08", "C07", "C19"], "timer, interval, delay, delay_subscription, delay_threads built first and subscribed after a real 25 ms pause: the requested timer is the whole configured duration", |_| "5 operators, duration 10 s".to_string(), Box::new(|_| c08_built_earlier()), 10_000, 10_000, false);
   fn b7(t: bool) -> String {
     format!("observe_on, delay(1|2), delay_subscription(1|2), subscribe_on; scripts of <= {} symbolic items with gaps 0..2 and every terminal; hot and cold sources; executor run eagerly or late at every step; LocalPool(FIFO) and ANY-order executors (threads forms: hook FIFO and ANY)", if t { 3 } else { 2 })
   }
